@@ -14,6 +14,16 @@ verus! {
 // paths the extracted bodies name through `crate::` (T8)
 pub mod buffer { pub use crate::real::{Block, Token, Style}; }
 
+/// completion bookkeeping (src/complete_gen.rs): opaque; the extracted code only moves it around (T8)
+#[cfg(feature = "autocomplete")]
+pub mod complete_gen {
+    use vstd::prelude::*;
+    #[verifier::external_body]
+    pub struct Complete { _opaque: () }
+    #[verifier::external_body]
+    pub struct Comp { _opaque: () }
+}
+
 pub mod prelude {
     use super::*;
 
@@ -202,6 +212,7 @@ pub mod spec {
         &&& post.wf()
         &&& post.items == pre.items
         &&& forall|i: int| 0 <= i < pre.item_state.len() && !present(#[trigger] pre.item_state[i]) ==> !present(post.item_state[i])
+        &&& comp_inert(pre, post)
     }
 
     /// relational denotation of `parse_option(p, &mut len, args, catch)`:
@@ -338,6 +349,9 @@ pub mod spec {
         } else if fin is Some {
             // an inner level's final output (help of a subcommand, its error) is passed through untouched
             post == mid && r == Err::<T, ParseFailure>(fin->Some_0)
+        } else if completion_outcome(mid, r, post) {
+            // completion mode (only when compiled in and requested): completion output takes precedence over value, help and error
+            true
         } else if ri is Ok && (forall|i: int| !#[trigger] mid.avail(i)) {
             // the only way to a value: the inner parser succeeded and nothing available is left
             post == mid && r == Ok::<T, ParseFailure>(ri->Ok_0)
@@ -366,7 +380,7 @@ pub mod spec {
                     else { r == Ok::<OsString, Error>(pw.1) }
             }
         } else {
-            post == pre && r is Err && is_missing_positional(r->Err_0, metavar, pre.scope)
+            unchanged(pre, post) && r is Err && is_missing_positional(r->Err_0, metavar, pre.scope)
         }
     }
 
@@ -429,6 +443,45 @@ pub mod spec {
     /// `post` is `pre` again (completion bookkeeping, when compiled in, is taken from `mid`)
     #[cfg(not(feature = "autocomplete"))]
     pub open spec fn restored(pre: State, mid: State, post: State) -> bool { post == pre }
+    /// with completion compiled in, the hint list of the failed attempt is kept (or the old one if the attempt has none)
+    #[cfg(feature = "autocomplete")]
+    pub open spec fn restored(pre: State, mid: State, post: State) -> bool {
+        &&& post.items == pre.items && post.item_state == pre.item_state && post.remaining == pre.remaining
+        &&& post.current == pre.current && post.path == pre.path && post.scope == pre.scope
+        &&& (post.comp == mid.comp || (mid.comp is None && post.comp == pre.comp))
+    }
+
+    /// `post` is `pre` (with completion compiled in: up to the completion bookkeeping, which stays None if it was None)
+    #[cfg(not(feature = "autocomplete"))]
+    pub open spec fn unchanged(pre: State, post: State) -> bool { post == pre }
+    #[cfg(feature = "autocomplete")]
+    pub open spec fn unchanged(pre: State, post: State) -> bool { post.same_but_comp(pre) && (pre.comp is None ==> post == pre) }
+
+    /// equal up to the completion bookkeeping (plain equality when completion is not compiled in)
+    #[cfg(not(feature = "autocomplete"))]
+    pub open spec fn eqc(a: State, b: State) -> bool { a == b }
+    #[cfg(feature = "autocomplete")]
+    pub open spec fn eqc(a: State, b: State) -> bool { a.same_but_comp(b) }
+
+    /// not in completion mode (always true when completion is not compiled in)
+    #[cfg(not(feature = "autocomplete"))]
+    pub open spec fn no_comp(s: State) -> bool { true }
+    #[cfg(feature = "autocomplete")]
+    pub open spec fn no_comp(s: State) -> bool { s.comp is None }
+
+    /// completion output requested and produced (never, when completion is not compiled in)
+    #[cfg(not(feature = "autocomplete"))]
+    pub open spec fn completion_outcome<T>(mid: State, r: Result<T, ParseFailure>, post: State) -> bool { false }
+    #[cfg(feature = "autocomplete")]
+    pub open spec fn completion_outcome<T>(mid: State, r: Result<T, ParseFailure>, post: State) -> bool {
+        mid.comp is Some && post == mid && r is Err && r->Err_0 is Completion
+    }
+
+    /// completion bookkeeping never appears out of nothing: outside completion mode (`comp` is None) it stays None
+    #[cfg(not(feature = "autocomplete"))]
+    pub open spec fn comp_inert(pre: State, post: State) -> bool { true }
+    #[cfg(feature = "autocomplete")]
+    pub open spec fn comp_inert(pre: State, post: State) -> bool { pre.comp is None ==> post.comp is None }
 
     impl State {
         /// i is the first available item of the scope
@@ -449,6 +502,11 @@ pub mod spec {
             &&& self.path == o.path
             &&& self.scope == o.scope
             &&& self.comp_eq(o)
+        }
+        /// everything but the completion bookkeeping is equal
+        pub open spec fn same_but_comp(&self, o: State) -> bool {
+            &&& self.items == o.items && self.item_state == o.item_state && self.remaining == o.remaining
+            &&& self.current == o.current && self.path == o.path && self.scope == o.scope
         }
         #[cfg(not(feature = "autocomplete"))]
         pub open spec fn comp_eq(&self, o: State) -> bool { true }
@@ -640,6 +698,7 @@ pub mod real {
             final(self).items == old(self).items, // #frame_items
             final(self).scope == old(self).scope, // #frame_scope
             final(self).path == old(self).path, // #frame_path
+            final(self).comp_eq(*old(self)), // #frame_comp
             old(self).avail(index as int) ==> {
                 &&& final(self).item_state@ == old(self).item_state@.update(index as int, ItemState::Parsed) // #marks_exactly_index
                 &&& final(self).remaining == old(self).remaining - 1 // #remaining_decremented
@@ -775,7 +834,7 @@ impl<'a> ArgsIter<'a> {
                 &&& final(self).remaining == old(self).remaining - 1
                 &&& final(self).current == Some(i as usize)
             },
-            final(self).items == old(self).items && final(self).scope == old(self).scope && final(self).path == old(self).path, // #frame
+            final(self).items == old(self).items && final(self).scope == old(self).scope && final(self).path == old(self).path && final(self).comp_eq(*old(self)), // #frame
 //@@ insert after 1 `|arg`
 : &(usize, &Arg)
 //@@ insert after 1 `|arg|`
@@ -794,7 +853,7 @@ proof { assert(old(self).first_match(*named, false, ix as int)); }
         requires old(self).wf(),
         ensures
             final(self).wf(), // #preserves_wf
-            final(self).items == old(self).items && final(self).scope == old(self).scope && final(self).path == old(self).path, // #frame
+            final(self).items == old(self).items && final(self).scope == old(self).scope && final(self).path == old(self).path && final(self).comp_eq(*old(self)), // #frame
             r matches Ok(None) ==> old(self).no_match(*named, adjacent) && *final(self) == *old(self), // #absent_leaves_state_unchanged
             (r is Ok && r->Ok_0 is None) == old(self).no_match(*named, adjacent), // #none_iff_no_matching_name
             r matches Ok(Some(v)) ==> exists|k: int| {
@@ -869,7 +928,7 @@ impl<'a> ArgsIter<'a> {
         requires old(self).wf(),
         ensures
             final(self).wf(), // #preserves_wf
-            final(self).items == old(self).items && final(self).scope == old(self).scope && final(self).path == old(self).path, // #frame
+            final(self).items == old(self).items && final(self).scope == old(self).scope && final(self).path == old(self).path && final(self).comp_eq(*old(self)), // #frame
             r matches Ok(t) ==> {
                 &&& old(self).first_pos_word(t.0 as int) // #takes_first_word_skipping_named_items
                 &&& pos_word(old(self).items[t.0 as int]) == Some((t.1, t.2)) // #strict_iff_after_double_dash_and_word_verbatim
@@ -896,7 +955,7 @@ impl<'a> ArgsIter<'a> {
         requires old(self).wf(),
         ensures
             final(self).wf(), // #preserves_wf
-            final(self).items == old(self).items && final(self).scope == old(self).scope && final(self).path == old(self).path, // #frame
+            final(self).items == old(self).items && final(self).scope == old(self).scope && final(self).path == old(self).path && final(self).comp_eq(*old(self)), // #frame
             r == (exists|k: int| #[trigger] old(self).first_avail(k) && cmd_matches(old(self).items[k], word)), // #true_iff_first_available_item_is_the_name
             r ==> exists|k: int| {
                 &&& #[trigger] old(self).first_avail(k) // #name_must_be_first_unclaimed_item
@@ -1168,7 +1227,7 @@ pub trait Parser<T> {
     open spec fn pwf(&self) -> bool { self.inner.pwf() }
     /// same outcome and state as the inner parser, except that a Missing(..) error forgets which items were missing
     open spec fn rel(&self, pre: State, r: Result<T, Error>, post: State) -> bool {
-        exists|ri: Result<T, Error>| #[trigger] self.inner.rel(pre, ri, post) && match ri {
+        exists|ri: Result<T, Error>, pre2: State, post2: State| #[trigger] self.inner.rel(pre2, ri, post2) && eqc(pre, pre2) && eqc(post2, post) && step(pre2, post2) && match ri {
             Ok(v) => r == Ok::<T, Error>(v),
             Err(e) => if e.0 is Missing { r is Err && r->Err_0.0 is Missing && r->Err_0.0->Missing_0@ == Seq::<MissingItem>::empty() } else { r == Err::<T, Error>(e) },
         }
@@ -1196,7 +1255,9 @@ pub trait Parser<T> {
 //@@ unit structs.ParseGroupHelp.eval tags=C05,C12,C20
 //@@ members
     open spec fn pwf(&self) -> bool { self.inner.pwf() }
-    open spec fn rel(&self, pre: State, r: Result<T, Error>, post: State) -> bool { self.inner.rel(pre, r, post) }
+    open spec fn rel(&self, pre: State, r: Result<T, Error>, post: State) -> bool {
+        exists|pre2: State, post2: State| #[trigger] self.inner.rel(pre2, r, post2) && eqc(pre, pre2) && eqc(post2, post) && step(pre2, post2)
+    }
 //@@ also fn meta external_body
 //@@ end
 
@@ -1388,7 +1449,7 @@ impl State {
 }
 
 //@@ fn src/structs.rs | fn this_or_that_picks_first
-//@@ unit structs.this_or_that_picks_first tags=C07,C08,C05
+//@@ unit structs.this_or_that_picks_first tags=C07,C08,C05 only=default
 //@@ ret r
 //@@ spec
         requires
@@ -1420,7 +1481,7 @@ proof { lemma_conflicts_saved(*old(args), *old(args_b), *old(args_a), win, *args
 //@@ end
 
 //@@ fn src/structs.rs | impl Parser for ParseOrElse | fn eval
-//@@ unit structs.ParseOrElse.eval tags=C07,C08,C05
+//@@ unit structs.ParseOrElse.eval tags=C07,C08,C05 only=default
 //@@ members
     open spec fn pwf(&self) -> bool { self.this.pwf() && self.that.pwf() }
     /// both branches run on copies of the same state; `or_case` picks the result and the state
@@ -1553,7 +1614,7 @@ proof { assert(forall|i: int| #![trigger args.avail(i)] #![trigger old(args).ava
 
 
 //@@ fn src/info.rs | impl OptionParser | fn run_subparser
-//@@ unit info.OptionParser.run_subparser tags=C01,C05,C08,C10,C11,C14
+//@@ unit info.OptionParser.run_subparser tags=C01,C05,C08,C10,C11,C14,C20
 //@@ ret r
 //@@ spec
         requires
@@ -1587,7 +1648,7 @@ where
 { unimplemented!() }
 
 //@@ fn src/params.rs | fn parse_pos_word
-//@@ unit params.parse_pos_word tags=C09,C06,C05
+//@@ unit params.parse_pos_word tags=C09,C06,C05,C20
 //@@ ret r
 //@@ spec
         requires old(args).wf(),
@@ -1697,7 +1758,91 @@ let ghost g_mid = *args;
 proof { assert(exists|a: &mut State| *a == g_pre && *final(a) == g_mid && #[trigger] self.inner.ensures((self.failfast, a), res)); }
 //@@ end
 
+// ---------------------------------------------------------------- feature = "autocomplete" only
+//@@ fn src/args.rs | mod inner | impl State | fn comp_mut
+//@@ unit args.State.comp_mut tags=C20
+//@@ ret r
+//@@ spec
+        ensures
+            r is Some == old(self).comp is Some, // #some_iff_completion_mode
+            final(self).same_but_comp(*old(self)), // #only_comp_reachable_through_the_borrow
+            match r {
+                Some(c) => old(self).comp == Some(*c) && final(self).comp == Some(*final(c)),
+                None => *final(self) == *old(self),
+            },
+//@@ end
+
+//@@ fn src/args.rs | mod inner | impl State | fn swap_comps
+//@@ unit args.State.swap_comps tags=C20
+//@@ spec
+        ensures
+            final(self).same_but_comp(*old(self)) && final(other).same_but_comp(*old(other)), // #only_comp_moves
+            final(self).comp == old(other).comp && final(other).comp == old(self).comp,
+//@@ end
+
+#[cfg(feature = "autocomplete")]
+impl crate::complete_gen::Complete {
+    #[verifier::external_body]
+    pub fn swap_comps(&mut self, other: &mut Vec<crate::complete_gen::Comp>) { unimplemented!() }
+    #[verifier::external_body]
+    pub fn extend_comps(&mut self, comps: Vec<crate::complete_gen::Comp>) { unimplemented!() }
 }
+
+//@@ fn src/args.rs | mod inner | impl State | fn touching_last_remove
+//@@ unit args.State.touching_last_remove tags=C20
+//@@ ret r
+//@@ spec
+        requires
+            self.wf(),
+            // D7 (DESIGN.md 7): `self.items.len() - 1` underflows for an empty item list in completion mode; callers are not under contract
+            self.comp is Some ==> self.items.len() > 0,
+        ensures self.comp is None ==> !r, // #false_outside_completion_mode
+//@@ end
+
+//@@ fn src/args.rs | impl State | fn swap_comps_with
+//@@ unit args.State.swap_comps_with tags=C20
+//@@ spec
+        ensures
+            final(self).same_but_comp(*old(self)), // #only_comp_touched
+            comp_inert(*old(self), *final(self)),
+            old(self).comp is None ==> *final(self) == *old(self), // #inert_outside_completion_mode
+//@@ end
+
+// assumed: the completion hooks of src/complete_gen.rs touch nothing but `comp`, and nothing at all outside completion mode
+#[cfg(feature = "autocomplete")]
+impl State {
+    #[verifier::external_body]
+    pub fn push_with_group(&mut self, group: &Option<String>, comps: &mut Vec<crate::complete_gen::Comp>)
+        ensures final(self).same_but_comp(*old(self)), old(self).comp is None ==> *final(self) == *old(self), old(self).comp is Some ==> final(self).comp is Some,
+    { unimplemented!() }
+    #[verifier::external_body]
+    pub fn push_pos_sep(&mut self)
+        ensures final(self).same_but_comp(*old(self)), old(self).comp is None ==> *final(self) == *old(self), old(self).comp is Some ==> final(self).comp is Some,
+    { unimplemented!() }
+    #[verifier::external_body]
+    pub fn push_metavar(&mut self, meta: &'static str, help: &Option<Doc>, is_argument: bool)
+        ensures final(self).same_but_comp(*old(self)), old(self).comp is None ==> *final(self) == *old(self), old(self).comp is Some ==> final(self).comp is Some,
+    { unimplemented!() }
+    #[verifier::external_body]
+    pub fn set_no_pos_ahead(&mut self)
+        ensures final(self).same_but_comp(*old(self)), old(self).comp is None ==> *final(self) == *old(self), old(self).comp is Some ==> final(self).comp is Some,
+    { unimplemented!() }
+    #[verifier::external_body]
+    pub fn check_no_pos_ahead(&self) -> (r: bool)
+    { unimplemented!() }
+    #[verifier::external_body]
+    pub fn check_complete(&self) -> (r: Option<String>)
+        ensures self.comp is None ==> r is None,
+    { unimplemented!() }
+}
+#[cfg(feature = "autocomplete")]
+impl Doc {
+    #[verifier::external_body]
+    pub fn to_completion(&self) -> Option<String> { unimplemented!() }
+}
+
+}
+
 
 //@@ include lemmas.rs.tpl
 
